@@ -1,5 +1,6 @@
 import Gaftools.Props.C01a
 import Gaftools.Props.C03s
+import Gaftools.Proofs.UnstableLemmas
 /-!
 # C01 (part b) — stable → unstable conversion designates the same locus
 -/
@@ -27,11 +28,231 @@ def TiledIv (segs : List RSeg) (x : OIv) : Prop :=
 
 def toItem (x : OIv) : SItem := .iv x.2 x.1.contig x.1.s x.1.e
 
+
+/-! ## helper lemmas -/
+
+/-- all segments of a rank-0 stable sequence have rank 0, and there is one -/
+theorem ref_rank0 (segs : List RSeg) (hv : ValidRGFA segs) (c : String) (hc : c ∈ refNames segs) :
+    (∃ s ∈ segs, s.sn = c) ∧ ∀ s ∈ segs, s.sn = c → s.sr = 0 := by
+  unfold refNames at hc
+  rw [List.mem_eraseDups] at hc
+  obtain ⟨s0, hs0, rfl⟩ := List.mem_map.1 hc
+  rw [List.mem_filter] at hs0
+  obtain ⟨hs0m, hs0r⟩ := hs0
+  have h0 : s0.sr = 0 := by simpa using hs0r
+  exact ⟨⟨s0, hs0m, rfl⟩, fun s hs hsn => by rw [hv.rank s hs s0 hs0m hsn]; exact h0⟩
+
+/-- the sorted segments of a rank-0 stable sequence tile it from 0 -/
+theorem ref_chain (segs : List RSeg) (hv : ValidRGFA segs) (c : String) (hc : c ∈ refNames segs) :
+    ∃ b, Proofs.Unstable.Chain (refOf segs c) 0 b := by
+  obtain ⟨⟨s0, hs0, hs0c⟩, hr⟩ := ref_rank0 segs hv c hc
+  have hsd := C03.refOf_sortedDisjoint segs hv c
+  refine Proofs.Unstable.sorted_chain _ ?_ hsd.1 hsd.2 ?_ ?_
+  · intro h
+    have hm : (⟨s0.id, s0.so, s0.en⟩ : Seg) ∈ refOf segs c := (C03.mem_refOf segs c _).2 ⟨s0, hs0, hs0c, rfl⟩
+    rw [h] at hm
+    simp at hm
+  · intro sg hsg
+    obtain ⟨s, hs, _, rfl⟩ := (C03.mem_refOf segs c sg).1 hsg
+    exact (hv.pos s hs).1
+  · intro sg hsg
+    obtain ⟨s, hs, hsc, rfl⟩ := (C03.mem_refOf segs c sg).1 hsg
+    rcases hv.tiled s hs (hr s hs hsc) with h | ⟨b, hb, hbn, hbe⟩
+    · exact Or.inl h
+    · exact Or.inr ⟨⟨b.id, b.so, b.en⟩, (C03.mem_refOf segs c _).2 ⟨b, hb, hbn.trans hsc, rfl⟩, hbe⟩
+
+/-- `contig_len[c]` is the total length of the sorted segment table of `c` -/
+theorem ctgLen_eq_sum (segs : List RSeg) (c : String) (L : Int) (hL : ctgLen segs c = some L) :
+    ((refOf segs c).map (fun sg => sg.en - sg.so)).sum = L := by
+  unfold ctgLen at hL
+  unfold refOf
+  rw [Proofs.Unstable.sum_foldl_insertBySo]
+  simp only [List.map_nil, List.sum_nil, Int.add_zero, List.map_map]
+  have hf : ((fun sg : Seg => sg.en - sg.so) ∘ (fun s : RSeg => (⟨s.id, s.so, s.en⟩ : Seg)))
+      = fun s => (s.seq.length : Int) := by
+    funext s; simp only [Function.comp, RSeg.en]; omega
+  rw [hf]
+  split at hL
+  · simp at hL
+  · injection hL
+
 /-- the rank-0 stable sequences of a valid rGFA are tiled from 0 to their length by their sorted segments -/
 theorem ref_tiled (segs : List RSeg) (hv : ValidRGFA segs) (c : String) (hc : c ∈ refNames segs) (L : Int)
     (hL : ctgLen segs c = some L) (p : Int) (hp : 0 ≤ p ∧ p < L) :
     ∃ sg ∈ refOf segs c, sg.so ≤ p ∧ p < sg.en := by
-  sorry
+  obtain ⟨b, hch⟩ := ref_chain segs hv c hc
+  have h1 := hch.sum
+  rw [ctgLen_eq_sum segs c L hL] at h1
+  exact hch.cover p hp.1 (by omega)
+
+
+/-! ## nodes of a path, spelled sequences -/
+
+theorem find_of_mem (l : List RSeg) (hn : (l.map (·.id)).Nodup) (s : RSeg) (hs : s ∈ l) :
+    l.find? (·.id == s.id) = some s := by
+  induction l with
+  | nil => simp at hs
+  | cons t l ih =>
+    rw [List.map_cons, List.nodup_cons] at hn
+    by_cases hts : t = s
+    · subst hts; simp
+    · have hsl : s ∈ l := by
+        rcases List.mem_cons.1 hs with h | h
+        · exact absurd h.symm hts
+        · exact h
+      have hid : ¬ (t.id == s.id) = true := by
+        intro h
+        have h' : t.id = s.id := by simpa using h
+        exact hn.1 (by rw [h']; exact List.mem_map.2 ⟨s, hsl, rfl⟩)
+      rw [List.find?_cons_of_neg (p := fun x : RSeg => x.id == s.id) hid]
+      exact ih hn.2 hsl
+
+theorem findSeg_of_mem (segs : List RSeg) (hv : ValidRGFA segs) (s : RSeg) (hs : s ∈ segs) : findSeg segs s.id = some s :=
+  find_of_mem segs hv.ids s hs
+
+/-- the step list of a list of oriented nodes -/
+def stepsOf (L : List (Bool × RSeg)) : List (Bool × String) := L.map (fun p => (p.1, p.2.id))
+
+/-- the sequence spelled by a list of oriented nodes -/
+def seqOf (L : List (Bool × RSeg)) : List Char :=
+  (L.map (fun p => if p.1 then p.2.seq else revcomp comp p.2.seq)).flatten
+
+def lenOf (L : List (Bool × RSeg)) : Int := (L.map (fun p => (p.2.seq.length : Int))).sum
+
+theorem spellU_nodes (segs : List RSeg) (hv : ValidRGFA segs) (L : List (Bool × RSeg)) (hL : ∀ p ∈ L, p.2 ∈ segs) :
+    spellU comp segs (stepsOf L) = some (seqOf comp L) := by
+  have h : (stepsOf L).mapM (fun st => (findSeg segs st.2).map (fun s => if st.1 then s.seq else revcomp comp s.seq))
+      = some (L.map (fun p => if p.1 then p.2.seq else revcomp comp p.2.seq)) := by
+    induction L with
+    | nil => rfl
+    | cons p L ih =>
+      unfold stepsOf at ih ⊢
+      rw [List.map_cons, List.mapM_cons, ih (fun q hq => hL q (by simp [hq])), findSeg_of_mem segs hv p.2 (hL p (by simp))]
+      rfl
+  unfold spellU seqOf
+  rw [h]; rfl
+
+theorem plenU_nodes (segs : List RSeg) (hv : ValidRGFA segs) (L : List (Bool × RSeg)) (hL : ∀ p ∈ L, p.2 ∈ segs) :
+    plenU segs (stepsOf L) = some (lenOf L) := by
+  have h : (stepsOf L).mapM (fun st => (findSeg segs st.2).map (fun s => (s.seq.length : Int)))
+      = some (L.map (fun p => (p.2.seq.length : Int))) := by
+    induction L with
+    | nil => rfl
+    | cons p L ih =>
+      unfold stepsOf at ih ⊢
+      rw [List.map_cons, List.mapM_cons, ih (fun q hq => hL q (by simp [hq])), findSeg_of_mem segs hv p.2 (hL p (by simp))]
+      rfl
+  unfold plenU lenOf
+  rw [h]; rfl
+
+theorem revcomp_flatten (xs : List (List Char)) :
+    revcomp comp xs.flatten = (xs.reverse.map (revcomp comp)).flatten := by
+  induction xs with
+  | nil => rfl
+  | cons x xs ih => simp [Proofs.Conv.revcomp_append, ih]
+
+/-- the oriented node list of a run of nodes: forward for '>', reversed for '<' -/
+theorem run_steps (rs : List RSeg) (o : Bool) :
+    ∃ L : List (Bool × RSeg), (∀ p ∈ L, p.2 ∈ rs) ∧
+      stepsOf L = (if o then rs.map (·.id) else (rs.map (·.id)).reverse).map (fun i => (o, i)) ∧
+      seqOf comp L = (if o then (rs.map (·.seq)).flatten else revcomp comp (rs.map (·.seq)).flatten) ∧
+      lenOf L = (rs.map (fun s => (s.seq.length : Int))).sum := by
+  cases o with
+  | true =>
+    refine ⟨rs.map (fun s => (true, s)), ?_, ?_, ?_, ?_⟩
+    · intro p hp
+      obtain ⟨s, hs, rfl⟩ := List.mem_map.1 hp
+      exact hs
+    · simp [stepsOf, List.map_map, Function.comp_def]
+    · simp [seqOf, List.map_map, Function.comp_def]
+    · simp [lenOf, List.map_map, Function.comp_def]
+  | false =>
+    refine ⟨rs.reverse.map (fun s => (false, s)), ?_, ?_, ?_, ?_⟩
+    · intro p hp
+      obtain ⟨s, hs, rfl⟩ := List.mem_map.1 hp
+      exact List.mem_reverse.1 hs
+    · simp [stepsOf, List.map_map, Function.comp_def, List.map_reverse]
+    · rw [revcomp_flatten]
+      simp [seqOf, List.map_map, Function.comp_def, List.map_reverse]
+    · simp only [lenOf, List.map_map, Function.comp_def, List.map_reverse]
+      exact List.sum_reverse _
+
+/-- a chain of table entries of `c` is a run of nodes whose sequences concatenate to the bases of the tiled interval -/
+theorem chain_nodes (segs : List RSeg) (hv : ValidRGFA segs) (c : String) {ov : List Seg} {a b : Int}
+    (h : Proofs.Unstable.Chain ov a b) : (∀ sg ∈ ov, sg ∈ refOf segs c) →
+    ∃ rs : List RSeg, (∀ s ∈ rs, s ∈ segs) ∧ ov.map (·.id) = rs.map (·.id) ∧
+      contigSlice segs c a b = some (rs.map (·.seq)).flatten ∧
+      (rs.map (fun s => (s.seq.length : Int))).sum = b - a := by
+  induction h with
+  | single x hx =>
+    intro hmem
+    obtain ⟨s, hs, hsc, rfl⟩ := (C03.mem_refOf segs c x).1 (hmem x (by simp))
+    subst hsc
+    refine ⟨[s], by simpa using hs, rfl, ?_, ?_⟩
+    · simpa using Proofs.Conv.contigSlice_node segs hv s hs
+    · simp only [List.map_cons, List.map_nil, List.sum_cons, List.sum_nil, RSeg.en]; omega
+  | cons x rest b hx hr ih =>
+    intro hmem
+    obtain ⟨rs, h1, h2, h3, h4⟩ := ih (fun sg h => hmem sg (by simp [h]))
+    obtain ⟨s, hs, hsc, rfl⟩ := (C03.mem_refOf segs c x).1 (hmem x (by simp))
+    subst hsc
+    refine ⟨s :: rs, ?_, ?_, ?_, ?_⟩
+    · intro t ht
+      rcases List.mem_cons.1 ht with rfl | ht
+      · exact hs
+      · exact h1 t ht
+    · simp [h2]
+    · have hn := Proofs.Conv.contigSlice_node segs hv s hs
+      have hlt : s.en < b := hr.lt
+      have hx' : s.so < s.en := hx
+      have := Proofs.Conv.contigSlice_append segs s.sn s.so s.en b (by omega) (by omega) _ _ hn h3
+      simpa using this
+    · have hx' : s.so < s.en := hx
+      simp only [List.map_cons, List.sum_cons, h4]
+      simp only [RSeg.en] at hx' ⊢
+      omega
+
+/-- what the search and the inner loop see for a covered query on the table of `c` -/
+theorem item_core (segs : List RSeg) (hv : ValidRGFA segs) (c : String) (qs qe : Int) (hq : qs < qe)
+    (hcov : ∀ p, qs ≤ p → p < qe → ∃ sg ∈ refOf segs c, sg.so ≤ p ∧ p < sg.en) :
+    ∃ (r : Int × Int) (a b : Int) (rs : List RSeg), searchIv (refOf segs c) qs qe ((refOf segs c).length + 2) 0 (refOf segs c).length = some r ∧
+      (window (refOf segs c) r).filter (fun sg => overlapCase sg qs qe ≠ 0)
+        = (refOf segs c).filter (fun sg => overlaps sg qs qe) ∧
+      Proofs.Unstable.Chain ((refOf segs c).filter (fun sg => overlaps sg qs qe)) a b ∧ a ≤ qs ∧ qe ≤ b ∧
+      (∀ s ∈ rs, s ∈ segs) ∧ ((refOf segs c).filter (fun sg => overlaps sg qs qe)).map (·.id) = rs.map (·.id) ∧
+      contigSlice segs c a b = some (rs.map (·.seq)).flatten ∧
+      (rs.map (fun s => (s.seq.length : Int))).sum = b - a := by
+  have hsd := C03.refOf_sortedDisjoint segs hv c
+  have hex : ∃ sg ∈ refOf segs c, overlaps sg qs qe = true := by
+    obtain ⟨sg, hsg, h1, h2⟩ := hcov qs (by omega) hq
+    exact ⟨sg, hsg, by rw [Proofs.Search.overlaps_iff]; omega⟩
+  have hsome := C03.searchIv_isSome (refOf segs c) hsd qs qe hq hex
+  obtain ⟨r, hr⟩ := Option.isSome_iff_exists.1 hsome
+  have hsel := C03.selected_eq_overlaps (refOf segs c) hsd qs qe hq r hr
+  obtain ⟨a, b, hch, ha, hb⟩ := Proofs.Unstable.filter_chain (refOf segs c) hsd.1 hsd.2 qs qe hq hcov
+  obtain ⟨rs, h1, h2, h3, h4⟩ := chain_nodes segs hv c hch (fun sg h => (List.mem_filter.1 h).1)
+  exact ⟨r, a, b, rs, hr, hsel, hch, ha, hb, h1, h2, h3, h4⟩
+
+/-! ## `itemStep` -/
+
+theorem itemStep_iv (reference : String → List Seg) (sp : Bool) (ps pe : Int) (st : USt) (o : Bool) (c : String) (s e : Int)
+    (r : Int × Int) (h : searchIv (reference c) s e ((reference c).length + 2) 0 (reference c).length = some r) :
+    ∃ ns nt, itemStep reference sp ps pe st (.iv o c s e) =
+      some { path := st.path ++ ((if o then (scanWindow (window (reference c) r) s e true st.newStart st.newTotal).1
+                else (scanWindow (window (reference c) r) s e true st.newStart st.newTotal).1.reverse).map (fun i => (o, i))),
+             orient := some o, newStart := ns, newTotal := nt, split := true } := by
+  unfold itemStep
+  simp only [h, Option.getD_some]
+  exact ⟨_, _, rfl⟩
+
+theorem itemStep_bare (reference : String → List Seg) (sp : Bool) (ps pe : Int) (c : String)
+    (r : Int × Int) (h : searchIv (reference c) ps pe ((reference c).length + 2) 0 (reference c).length = some r)
+    (ids : List String) (ns nt : Int) (hs : scanWindow (window (reference c) r) ps pe false (-1) 0 = (ids, ns, nt)) :
+    itemStep reference sp ps pe ⟨[], none, -1, 0, false⟩ (.bare c) =
+      some { path := (if sp then ids else ids.reverse).map (fun i => (sp, i)),
+             orient := some sp, newStart := ns, newTotal := nt, split := false } := by
+  unfold itemStep
+  simp only [h, hs, Option.getD_none, List.nil_append]
 
 /-- MAIN (bare contig, either strand): the conversion succeeds, the result is a '+'-strand walk over the nodes under
     `[ps, pe)`, designates the same bases in the same read orientation, its path length is the total node length, the CIGAR is
@@ -42,7 +263,175 @@ theorem toUnstable_bare (segs : List RSeg) (hv : ValidRGFA segs) (c : String) (s
       locusU comp segs path o.ps o.pe = locusS comp segs (.bare c) strandPlus ps pe ∧
       (locusS comp segs (.bare c) strandPlus ps pe).isSome ∧
       plenU segs path = some o.plen ∧ o.strandPlus = true ∧ o.flipCigar = !strandPlus ∧ o.pe - o.ps = pe - ps := by
-  sorry
+  obtain ⟨hps, hpspe⟩ := hb.bounds
+  obtain ⟨Lc, hLc, hpeL⟩ := hb.len
+  have hcov : ∀ p, ps ≤ p → p < pe → ∃ sg ∈ refOf segs c, sg.so ≤ p ∧ p < sg.en :=
+    fun p h1 h2 => ref_tiled segs hv c hb.isRef Lc hLc p ⟨by omega, by omega⟩
+  obtain ⟨r, a, b, rs, hr, hsel, hch, ha, hbq, hrs, hids, hX, hsum⟩ := item_core segs hv c ps pe hpspe hcov
+  obtain ⟨h, t, hov, hha, _⟩ := hch.head
+  have hhov : overlaps h ps pe = true := by
+    have : h ∈ (refOf segs c).filter (fun sg => overlaps sg ps pe) := by rw [hov]; simp
+    exact (List.mem_filter.1 this).2
+  rw [Proofs.Search.overlaps_iff] at hhov
+  have hscan := Proofs.Unstable.scanWindow_bare (window (refOf segs c) r) ps pe h t (by rw [hsel, hov]) (by omega) hhov.2
+  rw [← hov, hch.sum, hids, hha] at hscan
+  have hstep := itemStep_bare (refOf segs) strandPlus ps pe c r hr _ _ _ hscan
+  obtain ⟨L, hL1, hL2, hL3, hL4⟩ := run_steps comp rs strandPlus
+  have hLs : ∀ p ∈ L, p.2 ∈ segs := fun p hp => hrs _ (hL1 p hp)
+  have hspell := spellU_nodes comp segs hv L hLs
+  have hplen := plenU_nodes segs hv L hLs
+  rw [hL2] at hspell hplen
+  rw [hL3] at hspell
+  rw [hL4, hsum] at hplen
+  have hXl := Proofs.Conv.contigSlice_length segs c a b _ hX
+  have hab := hch.lt
+  have hsub := Proofs.Conv.contigSlice_sub segs c a b ps pe _ hX ha (by omega) hbq
+  have hfold : List.foldlM (itemStep (refOf segs) strandPlus ps pe) ⟨[], none, -1, 0, false⟩ [SItem.bare c]
+      = some { path := (if strandPlus then rs.map (·.id) else (rs.map (·.id)).reverse).map (fun i => (strandPlus, i)),
+               orient := some strandPlus, newStart := ps - a, newTotal := b - a, split := false } := by
+    rw [List.foldlM_cons, hstep]; rfl
+  unfold toUnstable
+  rw [hfold]
+  cases strandPlus with
+  | true =>
+    refine ⟨_, _, rfl, ?_, ?_, ?_, rfl, rfl, ?_⟩
+    · simp only [locusU, locusS, hsub, if_true, Option.map_some]
+      rw [if_pos rfl] at hspell
+      rw [hspell]
+      simp only [Option.map_some]
+      congr 2
+      omega
+    · simp only [locusS, hsub]; rfl
+    · exact hplen
+    · simp only; omega
+  | false =>
+    refine ⟨_, _, rfl, ?_, ?_, ?_, rfl, rfl, ?_⟩
+    · simp only [Bool.false_eq_true, if_false] at hspell
+      simp only [locusU, locusS, hsub, Option.map_some, Bool.false_eq_true, if_false, hspell]
+      rw [Proofs.Conv.slice_revcomp comp _ _ _ (by omega) (by omega) (by omega)]
+      congr 3 <;> omega
+    · simp only [locusS, hsub]; rfl
+    · exact hplen
+    · simp only; omega
+
+
+/-! ## stable intervals -/
+
+/-- a touching run of non-empty segments is a chain from its first start to its last end -/
+theorem touching_chain (run : List RSeg) (hne : ∀ s ∈ run, s.seq ≠ []) (ht : touching run) (hr : run ≠ []) :
+    ∃ a b, Proofs.Unstable.Chain (run.map (fun s => (⟨s.id, s.so, s.en⟩ : Seg))) a b ∧
+      run.head?.map (·.so) = some a ∧ run.getLast?.map (·.en) = some b := by
+  induction run with
+  | nil => exact absurd rfl hr
+  | cons s rest ih =>
+    have hs : s.so < s.en := by
+      have := List.length_pos_iff.mpr (hne s (by simp))
+      simp only [RSeg.en]; omega
+    cases rest with
+    | nil => exact ⟨s.so, s.en, Proofs.Unstable.Chain.single ⟨s.id, s.so, s.en⟩ hs, rfl, rfl⟩
+    | cons s2 r =>
+      obtain ⟨hen, ht2⟩ : s.en = s2.so ∧ touching (s2 :: r) := ht
+      obtain ⟨a, b, hch, hh, hl⟩ := ih (fun t h => hne t (by simp [h])) ht2 (by simp)
+      have ha : a = s.en := by
+        simp only [List.head?_cons, Option.map_some, Option.some.injEq] at hh
+        omega
+      subst ha
+      refine ⟨s.so, b, Proofs.Unstable.Chain.cons ⟨s.id, s.so, s.en⟩ _ b hs hch, rfl, ?_⟩
+      rw [List.getLast?_cons_cons]
+      exact hl
+
+/-- one stable interval: the nodes under it, the bases they spell, and the loop step -/
+theorem iv_item (segs : List RSeg) (hv : ValidRGFA segs) (x : OIv) (hx : TiledIv segs x) :
+    ∃ L : List (Bool × RSeg), (∀ p ∈ L, p.2 ∈ segs) ∧
+      (∃ Z, contigSlice segs x.1.contig x.1.s x.1.e = some Z ∧ seqOf comp L = (if x.2 then Z else revcomp comp Z)) ∧
+      lenOf L = x.1.e - x.1.s ∧
+      ∀ (sp : Bool) (ps pe : Int) (st : USt), ∃ st', itemStep (refOf segs) sp ps pe st (toItem x) = some st' ∧
+        st'.path = st.path ++ stepsOf L ∧ st'.split = true := by
+  obtain ⟨run, hrne, hrmem, hrt, hrh, hrl⟩ := hx
+  have hsd := C03.refOf_sortedDisjoint segs hv x.1.contig
+  obtain ⟨a0, b0, hrch, hh0, hl0⟩ := touching_chain run (fun s h => (hv.pos s (hrmem s h).1).2) hrt hrne
+  rw [hrh] at hh0
+  rw [hrl] at hl0
+  injection hh0 with hh0
+  injection hl0 with hl0
+  subst hh0; subst hl0
+  have hrmem' : ∀ sg ∈ run.map (fun s => (⟨s.id, s.so, s.en⟩ : Seg)), sg ∈ refOf segs x.1.contig := by
+    intro sg hsg
+    obtain ⟨s, hs, rfl⟩ := List.mem_map.1 hsg
+    exact (C03.mem_refOf segs _ _).2 ⟨s, (hrmem s hs).1, (hrmem s hs).2, rfl⟩
+  have hq := hrch.lt
+  have hcov : ∀ p, x.1.s ≤ p → p < x.1.e → ∃ sg ∈ refOf segs x.1.contig, sg.so ≤ p ∧ p < sg.en := by
+    intro p h1 h2
+    obtain ⟨sg, hsg, h⟩ := hrch.cover p h1 h2
+    exact ⟨sg, hrmem' sg hsg, h⟩
+  obtain ⟨r, a, b, rs, hr, hsel, hch, ha, hbq, hrs, hids, hX, hsum⟩ := item_core segs hv x.1.contig x.1.s x.1.e hq hcov
+  -- the chain found by the search is exactly `[x.s, x.e)`
+  have hmemf : ∀ sg ∈ (refOf segs x.1.contig).filter (fun sg => overlaps sg x.1.s x.1.e),
+      sg ∈ refOf segs x.1.contig ∧ sg.so < x.1.e ∧ x.1.s < sg.en := by
+    intro sg hsg
+    obtain ⟨h1, h2⟩ := List.mem_filter.1 hsg
+    rw [Proofs.Search.overlaps_iff] at h2
+    exact ⟨h1, h2⟩
+  have haeq : a = x.1.s := by
+    obtain ⟨h, t, hov, hha, _⟩ := hch.head
+    obtain ⟨h', t', hov', hha', hlt'⟩ := hrch.head
+    have hm := hmemf h (by rw [hov]; simp)
+    have hm' := hrmem' h' (by rw [hov']; simp)
+    have := Proofs.Unstable.cover_unique hsd hm.1 hm' x.1.s ⟨by omega, hm.2.2⟩ ⟨by omega, by omega⟩
+    rw [this] at hha
+    omega
+  have hbeq : b = x.1.e := by
+    obtain ⟨z, hz, hzb, _⟩ := hch.last
+    obtain ⟨z', hz', hzb', hlt'⟩ := hrch.last
+    have hm := hmemf z hz
+    have hm' := hrmem' z' hz'
+    have := Proofs.Unstable.cover_unique hsd hm.1 hm' (x.1.e - 1) ⟨by omega, by omega⟩ ⟨by omega, by omega⟩
+    rw [this] at hzb
+    omega
+  subst haeq; subst hbeq
+  obtain ⟨L, hL1, hL2, hL3, hL4⟩ := run_steps comp rs x.2
+  refine ⟨L, fun p hp => hrs _ (hL1 p hp), ⟨_, hX, hL3⟩, by rw [hL4, hsum], ?_⟩
+  intro sp ps pe st
+  obtain ⟨ns, nt, hstep⟩ := itemStep_iv (refOf segs) sp ps pe st x.2 x.1.contig x.1.s x.1.e r hr
+  refine ⟨_, hstep, ?_, rfl⟩
+  rw [Proofs.Unstable.scanWindow_ids, hsel, hids, hL2]
+
+/-- the whole loop over a list of stable intervals -/
+theorem fold_ivs (segs : List RSeg) (hv : ValidRGFA segs) (l : List OIv) (ht : ∀ x ∈ l, TiledIv segs x) :
+    ∃ L : List (Bool × RSeg), (∀ p ∈ L, p.2 ∈ segs) ∧ spellS comp segs l = some (seqOf comp L) ∧ lenOf L = plenS l ∧
+      ∀ (sp : Bool) (ps pe : Int) (st : USt), ∃ st',
+        (l.map toItem).foldlM (itemStep (refOf segs) sp ps pe) st = some st' ∧
+        st'.path = st.path ++ stepsOf L ∧ (st.split = true ∨ l ≠ [] → st'.split = true) := by
+  induction l with
+  | nil =>
+    refine ⟨[], by simp, rfl, rfl, ?_⟩
+    intro sp ps pe st
+    refine ⟨st, rfl, by simp [stepsOf], ?_⟩
+    rintro (h | h)
+    · exact h
+    · exact absurd rfl h
+  | cons x l ih =>
+    obtain ⟨Lx, hLx, ⟨Z, hZ, hsx⟩, hlx, hstepx⟩ := iv_item comp segs hv x (ht x (by simp))
+    obtain ⟨Lr, hLr, hsr, hlr, hfold⟩ := ih (fun y hy => ht y (by simp [hy]))
+    refine ⟨Lx ++ Lr, ?_, ?_, ?_, ?_⟩
+    · intro p hp
+      rcases List.mem_append.1 hp with h | h
+      · exact hLx p h
+      · exact hLr p h
+    · rw [C01.spellS_cons_eq_some]
+      refine ⟨Z, _, hZ, hsr, ?_⟩
+      rw [← hsx]
+      simp [seqOf]
+    · rw [C01.plenS_cons, ← hlx, ← hlr]
+      simp [lenOf]
+    · intro sp ps pe st
+      obtain ⟨st1, hst1, hp1, hs1⟩ := hstepx sp ps pe st
+      obtain ⟨st2, hst2, hp2, hs2⟩ := hfold sp ps pe st1
+      refine ⟨st2, ?_, ?_, fun _ => hs2 (Or.inl hs1)⟩
+      · rw [List.map_cons, List.foldlM_cons, hst1]
+        exact hst2
+      · rw [hp2, hp1]
+        simp [stepsOf]
 
 /-- MAIN (interval list, '+' strand): every interval is replaced by its run of nodes (reversed for '<'), offsets and total
     length unchanged, same bases -/
@@ -52,7 +441,22 @@ theorem toUnstable_ivs (segs : List RSeg) (hv : ValidRGFA segs) (l : List OIv) (
       locusU comp segs path ps pe = locusS comp segs (.ivs l) true ps pe ∧
       (locusS comp segs (.ivs l) true ps pe).isSome ∧
       plenU segs path = some (plenS l) := by
-  sorry
+  have _hb := hb
+  obtain ⟨L, hL, hsp, hlen, hfold⟩ := fold_ivs comp segs hv l ht
+  obtain ⟨st', hst', hpath, hsplit⟩ := hfold true ps pe ⟨[], none, -1, 0, false⟩
+  have hsplit' : st'.split = true := hsplit (Or.inr hl)
+  have hpath' : st'.path = stepsOf L := by rw [hpath]; rfl
+  have hemp : (l.map toItem).isEmpty = false := by
+    cases l with
+    | nil => exact absurd rfl hl
+    | cons x l => rfl
+  refine ⟨stepsOf L, ?_, ?_, ?_, ?_⟩
+  · unfold toUnstable
+    rw [hst']
+    simp only [hemp, hsplit', hpath', Bool.not_true, Bool.false_eq_true, if_false, if_true]
+  · simp only [locusU, locusS, spellU_nodes comp segs hv L hL, hsp]
+  · simp only [locusS, hsp]; rfl
+  · rw [plenU_nodes segs hv L hL, hlen]
 
 /-! non-vacuity (graph of part a: chr1 = a[0,3) b[3,5) c[5,9); h at hap[10,12)) -/
 example : toUnstable (refOf exSegs) false [.bare "chr1"] 9 4 8 = some ([(false, "c"), (false, "b")], ⟨true, 6, 1, 5, true⟩) := by decide
